@@ -34,8 +34,8 @@ def cleanup(ctx):
         shutil.rmtree(d, ignore_errors=True)
 
 
-def build(ctx):
-    b = ctx.go_test_bin(PKG, harness=HARNESS, hide_own_tests=True)
+def build(ctx, tags=()):
+    b = ctx.go_test_bin(PKG, harness=HARNESS, hide_own_tests=True, tags=tags)
     ctx._lq_tmp = ledger_tmp(ctx)
     return b
 
@@ -102,8 +102,12 @@ def go_act(a):
     g = {"name": a["name"]}
     if a["name"] == "Submit":
         g.update({"path": a["path"], "shape": a["shape"], "res": a["res"], "mut": {MUT_GO[k]: v for k, v in a["mut"].items()}})
+        if "point" in a:
+            g.update({"kind": a["kind"], "point": a["point"]})
     elif a["name"] == "PreExec":
         g["kind"] = a["kind"]
+    elif a["name"] == "SyncHeader":
+        g["shape"] = a["shape"]
     return g
 
 
@@ -201,6 +205,12 @@ def check_steps(ctx, paths, obs, what):
                     if a["res"] not in ("ignored",) and o["reason"] != a["res"]:
                         ctx.extra.setdefault("reason_mismatch", {}).setdefault("%s:%s model=%s real=%s" % (a["path"], mc, a["res"], o["reason"]), 0)
                         ctx.extra["reason_mismatch"]["%s:%s model=%s real=%s" % (a["path"], mc, a["res"], o["reason"])] += 1
+            elif name == "SyncHeader":
+                if o["res"] != "ok":
+                    ctx.infra("model drift: AddHeaders refused the valid next header: %s" % o.get("err"))
+                    break
+                if o["changed"] and "unchanged" in what:
+                    ctx.violation("syncheader-changed-store", {"stores": o["changed"], "keys": o.get("diff")}, rp)
             elif name == "Restart" and o["res"] != "ok":
                 ctx.violation("restart-failed", {"err": o.get("err")}, rp)
                 break
@@ -215,6 +225,8 @@ def check_steps(ctx, paths, obs, what):
             got = {k: o[k] for k in exp}
             if got != exp:
                 key = "heights:%s" % (name if name != "Submit" else "Submit:%s:%s" % (a["path"], mut_class(a["mut"])))
+                if "point" in a:
+                    key = "preexec-during-commit:%s:%s:heights" % (a["kind"], a["point"])
                 ctx.violation(key, {"model": exp, "real": got}, rp)
                 break
             # ---------------------------------------------------------------- views
@@ -245,8 +257,9 @@ def check_steps(ctx, paths, obs, what):
                         bad = ("transactionByHash", e["h"], {"model": e["txs"], "real": v["txs"]})
                     if bad:
                         break
-                if not bad and (o["above"]["hashByHeight"] != ["none"] or o["above"]["blockByHeight"] != "none"):
-                    bad = ("aboveCurrent", st["memCur"][0] + 1, o["above"])
+                exp_above = as_map(st["hidx"]["m"]).get(vf.canon(st["memCur"][0] + 1), ["none"])  # a synced header, if any
+                if not bad and (o["above"]["hashByHeight"] != exp_above or o["above"]["blockByHeight"] != "none"):
+                    bad = ("aboveCurrent", st["memCur"][0] + 1, {"real": o["above"], "model": exp_above})
                 if bad:
                     ctx.violation("view:%s:after-%s%s" % (bad[0], name, ":fresh" if st["fresh"] else ""), {"height": bad[1], "detail": bad[2]}, rp)
                     break
@@ -264,7 +277,8 @@ def check_steps(ctx, paths, obs, what):
                 k = vf.canon(st["chain"])
                 dg = (o["root"], o["dump"]["State"], o["dump"]["Event"], o["dump"]["Block"], o["dump"]["Merkle"])
                 if k in seen and seen[k][0] != dg:
-                    ctx.violation("history-dependent-state", {"chain": st["chain"], "a": seen[k][0], "b": dg, "first_seen": seen[k][1]}, rp)
+                    hk = "history-dependent-state" if "point" not in a else "preexec-during-commit:%s:%s:state" % (a["kind"], a["point"])
+                    ctx.violation(hk, {"chain": st["chain"], "a": seen[k][0], "b": dg, "first_seen": seen[k][1]}, rp)
                 seen.setdefault(k, (dg, replay_prefix(paths, pi, si)))
     return n
 
@@ -354,9 +368,9 @@ def self_test(ctx, trace_path):
     return ok
 
 
-def standard(ctx, pid, cfgs, required, oracles, tv=None, extra=None, assumptions=None):
+def standard(ctx, pid, cfgs, required, oracles, tv=None, extra=None, assumptions=None, tags=()):
     """the common flow of C40 / C42 / C43: TLC exhaustive -> edge cover -> replay -> oracles -> trace validation"""
-    binary = build(ctx)
+    binary = build(ctx, tags)
     cfg = cfgs[1] if ctx.thorough else cfgs[0]
     paths, nsteps, names, ntr, nev = [], 0, {}, 0, 0
     mc = None
